@@ -13,6 +13,10 @@ def EncOk {ε : Type} (enc : Nat → (Nat → Nat → Bytes) → Except ε (Nat 
   ∀ cap view off pkt, (∀ i n, (view i n).length ≤ n) → enc cap view = .ok (off, pkt) →
     off + pkt.length ≤ cap ∧ 0 < pkt.length
 
+/-- The packets an encoder produces are of type `typ` (high nibble of the first byte). -/
+def EncTyp {ε : Type} (enc : Nat → (Nat → Nat → Bytes) → Except ε (Nat × Bytes)) (typ : Nat) : Prop :=
+  ∀ cap view off pkt, enc cap view = .ok (off, pkt) → ∃ x rest, pkt = x :: rest ∧ x.toNat / 16 = typ
+
 theorem encodeVarint_length_le (n : Nat) : (encodeVarint n).length ≤ 4 := by
   unfold encodeVarint; repeat' split
   all_goals simp
@@ -39,6 +43,51 @@ theorem finalize_bound {w : W} {typ flags off : Nat} {pkt : Bytes} (h : w.finali
         rcases hfit with h0 | h1
         · rw [h0] at this ⊢; simp at this ⊢; omega
         · omega
+
+theorem finalize_typ {w : W} {typ flags off : Nat} {pkt : Bytes} (h : w.finalize typ flags = .ok (off, pkt))
+    (ht : typ < 16) : ∃ x rest, pkt = x :: rest ∧ x.toNat / 16 = typ := by
+  unfold W.finalize at h
+  split at h
+  · simp at h
+  · split at h
+    · simp at h
+    · simp only [Except.ok.injEq, Prod.mk.injEq] at h
+      refine ⟨_, _, h.2.symm, ?_⟩
+      simp only [b, UInt8.toNat_ofNat']
+      omega
+
+theorem EncTyp_encodeWithOffset (cs : List (Except SerErr Bytes)) (typ flags : Nat) (ht : typ < 16) :
+    EncTyp (fun cap _ => encodeWithOffset cap cs typ flags) typ := by
+  intro cap view off pkt h
+  simp only [encodeWithOffset] at h
+  split at h
+  · simp at h
+  · exact finalize_typ h ht
+
+theorem EncTyp_encodePublish (h : PublishHeader) (payload : Payload) :
+    EncTyp (fun cap fill => encodePublishWithOffset cap h payload fill) MT_Publish := by
+  intro cap view off pkt he
+  simp only [encodePublishWithOffset] at he
+  split at he
+  · simp at he
+  · split at he
+    · simp at he
+    · split at he
+      · simp at he
+      · split at he
+        · simp at he
+        · rename_i r hr
+          simp only [Except.ok.injEq] at he
+          subst he
+          exact finalize_typ hr (by decide)
+    · split at he
+      · simp at he
+      · split at he
+        · simp at he
+        · rename_i r hr
+          simp only [Except.ok.injEq] at he
+          subst he
+          exact finalize_typ hr (by decide)
 
 theorem EncOk_encodeWithOffset (cs : List (Except SerErr Bytes)) (typ flags : Nat) :
     EncOk (fun cap _ => encodeWithOffset cap cs typ flags) := by
